@@ -1,7 +1,7 @@
 (* Proofs about RibQueryModel (property C11). *)
 From stdpp Require Import gmap.
 From Coq Require Import NArith Lia List Bool.
-From RV Require Import Rib.RibModel Rib.RibProofs PathConf.PathConfModel RibQuery.RibQueryModel.
+From RV Require Import Rib.RibModel Rib.RibProofs PathConf.PathConfModel PathConf.PathConfProofs RibQuery.RibQueryModel.
 Import ListNotations.
 Local Open Scope N_scope.
 
@@ -433,6 +433,59 @@ Proof.
   destruct (rq_parse_filters _); [|reflexivity].
   pose proof (rq_unused_keeps_unknown _ [] _ Hin Hs Hd Hk) as H.
   destruct (rq_unused [] (rq_params raw)); [inversion H|reflexivity].
+Qed.
+
+
+(* ---------------------------------------------------------------- the include parameter *)
+Lemma include_vals_spec vs : forall acc inc,
+  rq_parse_include_vals vs acc = Some inc <->
+  (forall v, In v vs -> v = kw_less_specifics \/ v = kw_more_specifics) /\
+  (i_less inc = true <-> i_less acc = true \/ In kw_less_specifics vs) /\
+  (i_more inc = true <-> i_more acc = true \/ In kw_more_specifics vs).
+Proof.
+  assert (Hne : kw_less_specifics <> kw_more_specifics) by (vm_compute; discriminate).
+  induction vs as [|v vs IH]; intros acc inc; cbn [rq_parse_include_vals].
+  - split.
+    + intros [= <-]. split; [intros v []|]. cbn [In]. tauto.
+    + intros (_ & Hl & Hm). cbn [In] in Hl, Hm. destruct inc as [a b], acc as [c d]. cbn [i_less i_more] in *.
+      f_equal; f_equal; apply RibProofs.bool_ext_iff; tauto.
+  - destruct (pc_bytes_eqb v kw_less_specifics) eqn:El.
+    + apply PathConfProofs.pc_bytes_eqb_eq in El. subst v. rewrite IH. cbn [i_less i_more In]. split.
+      * intros (Hall & Hl & Hm). split; [intros v [<-|Hv]; [tauto|apply Hall, Hv]|]. split; [tauto|].
+        rewrite Hm. split; [tauto|]. intros [H|[H|H]]; [tauto|congruence|tauto].
+      * intros (Hall & Hl & Hm). split; [intros v Hv; apply Hall; tauto|]. split; [tauto|].
+        rewrite Hm. split; [tauto|]. intros [H|H]; tauto.
+    + destruct (pc_bytes_eqb v kw_more_specifics) eqn:Em.
+      * apply PathConfProofs.pc_bytes_eqb_eq in Em. subst v. rewrite IH. cbn [i_less i_more In]. split.
+        -- intros (Hall & Hl & Hm). split; [intros v [<-|Hv]; [tauto|apply Hall, Hv]|]. split; [|tauto].
+           rewrite Hl. split; [tauto|]. intros [H|[H|H]]; [tauto|congruence|tauto].
+        -- intros (Hall & Hl & Hm). split; [intros v Hv; apply Hall; tauto|]. split; [|tauto].
+           rewrite Hl. split; [intros [H|[H|H]]; [tauto|congruence|tauto]|]. intros [H|H]; tauto.
+      * split; [discriminate|]. intros (Hall & _). exfalso.
+        destruct (Hall v (or_introl eq_refl)) as [->| ->].
+        -- assert (pc_bytes_eqb kw_less_specifics kw_less_specifics = true) by (apply PathConfProofs.pc_bytes_eqb_eq; reflexivity). congruence.
+        -- assert (pc_bytes_eqb kw_more_specifics kw_more_specifics = true) by (apply PathConfProofs.pc_bytes_eqb_eq; reflexivity). congruence.
+Qed.
+
+(* include=<v1>,<v2>,...: accepted iff every value is lessSpecifics or
+   moreSpecifics; a section is requested iff its name occurs *)
+Theorem include_param_spec ps inc :
+  rq_parse_include ps = Some inc <->
+  match rq_get ps kw_include with
+  | None => inc = MkInc false false
+  | Some p =>
+    (forall v, In v (pc_split 44 (p_val p)) -> v = kw_less_specifics \/ v = kw_more_specifics) /\
+    (i_less inc = true <-> In kw_less_specifics (pc_split 44 (p_val p))) /\
+    (i_more inc = true <-> In kw_more_specifics (pc_split 44 (p_val p)))
+  end.
+Proof.
+  unfold rq_parse_include. destruct (rq_get ps kw_include) as [p|].
+  - rewrite include_vals_spec. cbn [i_less i_more]. split; intros (H1 & H2 & H3); (split; [exact H1|]); split.
+    + rewrite H2. split; [intros [H|H]; [discriminate|exact H]|tauto].
+    + rewrite H3. split; [intros [H|H]; [discriminate|exact H]|tauto].
+    + rewrite H2. intuition discriminate.
+    + rewrite H3. intuition discriminate.
+  - split; [intros [= <-]; reflexivity|intros ->; reflexivity].
 Qed.
 
 (* ---------------------------------------------------------------- refutations (concrete witnesses) *)
